@@ -50,6 +50,16 @@ func init() {
 	add("C15", "C15.lazy (the lazy getters of the memoised digests — PeerSet.Hash/Hex, Block.Hash/Hex, Event.Hash/Hex/Creator — fill the memo exactly on the edge on which it was found empty, with a computed value; shared with C12.lazy / C10.lazy).", as1(lazyGetterRule, "C15.lazy"))
 	add("C12", "C12.lazy (see C15.lazy: with an inverted test every peer-set hashes to the empty string and CheckBlock's peer-set comparison accepts any set).", as1(lazyGetterRule, "C12.lazy"))
 	add("C10", "C10.lazy (see C15.lazy).", as1(lazyGetterRule, "C10.lazy"))
+	cer := func(rule string, names []string, min int) ruleFunc {
+		return func(p *Prog, r *Report) { coreErrRule(p, r, rule, names, min) }
+	}
+	add("C12", "C12.errs (core.fastForward and checkFastForwardShape return an error on every failing edge of the checks they make — CheckBlock, frame.Hash, the shape checks, Reset, setHeadAndSeq: a refused response cannot look adopted to Node.fastForward, which restores the application only after a nil result; shared with C08.errs / C14.errs).", cer("C12.errs", []string{"fastForward", "checkFastForwardShape"}, 6))
+	add("C14", "C14.errs (see C12.errs).", cer("C14.errs", []string{"fastForward", "checkFastForwardShape"}, 6))
+	add("C08", "C08.errs (the shape validation of a fast-forward response reports every failed check to its caller; see C12.errs).", cer("C08.errs", []string{"fastForward", "checkFastForwardShape"}, 6))
+	add("C02", "C02.errs (core.commit and core.signBlock report the failures they test — a failed re-store of the block, a failed signature — instead of returning nil).", cer("C02.errs", []string{"commit", "signBlock"}, 5))
+	add("C05", "C05.errs (core.sync, signAndInsertSelfEvent, insertEventAndRunConsensus, recordHeads and setHeadAndSeq report the failures they test: pools are trimmed and heads recorded only after a reported success; shared with C11.coreerrs).", cer("C05.errs", []string{"sync", "signAndInsertSelfEvent", "insertEventAndRunConsensus", "recordHeads", "setHeadAndSeq"}, 5))
+	add("C11", "C11.coreerrs (see C05.errs: setHeadAndSeq reports a failed read of the creator's last event).", cer("C11.coreerrs", []string{"setHeadAndSeq", "insertEventAndRunConsensus"}, 2))
+	add("C10", "C10.follows (after a successful SetPeerSet the recorded set becomes core.validators on every path to a success return: the next accepted change is applied to the latest set).", as1(validatorsFollowRule, "C10.follows"))
 	add("C01", "C01.mapcut (see C03.mapcut).", as(mapCutRule, "C01.mapcut", consensusFuncs))
 	add("C13", "C13.mapcut (see C03.mapcut, for the functions that build a frame).", as(mapCutRule, "C13.mapcut", frameFuncs))
 }
@@ -325,8 +335,21 @@ func consensusErrRule(p *Prog, r *Report, rule string) {
 		}
 	}
 	sort.Slice(fs, func(i, j int) bool { return fs[i].String() < fs[j].String() })
-	n, nEx, nCls := 0, 0, 0
-	var exempt []string
+	n, nEx, nCls, exempt := errPropFuncs(p, r, rule, fs, func(cf *types.Func, sf *ssa.Function) bool {
+		if cf == nil || cf.Pkg() == nil || !(cf.Pkg().Path() == modPath || strings.HasPrefix(cf.Pkg().Path(), modPath+"/")) {
+			return false
+		}
+		// a failed READ of the DAG: a Store method, a method of *Hashgraph / BadgerStore, a package function of hashgraph
+		recv := recvNamed(cf)
+		return recv == "Store" || recv == "Hashgraph" || recv == "BadgerStore" || (recv == "" && cf.Pkg().Path() == modPath+"/"+HG)
+	}, "a transient store failure (evicted entry, I/O error) becomes a consensus answer that differs from what other nodes compute from the same DAG")
+	sort.Strings(exempt)
+	r.Note("%s: %d tested errors of store / hashgraph calls in %d consensus / pass functions of package hashgraph; %d tests of errors the function classifies (IsStore / errors.Is …); %d sites where 'absent' is an answer by design (table absentIsAnAnswer): %s", rule, n, len(fs), nCls, nEx, strings.Join(exempt, ", "))
+}
+
+// errPropFuncs: the obligation of consensusErrRule evaluated on an explicit list of functions. calleeOK selects the
+// calls whose error must propagate; name describes the callee in reports.
+func errPropFuncs(p *Prog, r *Report, rule string, fs []*ssa.Function, calleeOK func(cf *types.Func, sf *ssa.Function) bool, what string) (n, nEx, nCls int, exempt []string) {
 	for _, f := range fs {
 		for _, b := range f.Blocks {
 			if len(b.Instrs) == 0 || len(b.Succs) != 2 {
@@ -341,27 +364,30 @@ func consensusErrRule(p *Prog, r *Report, rule string) {
 				if !ok || isNil || !isErrorType(x.Type()) {
 					continue
 				}
-				// the error of a module call (static callee or interface method declared in the module)
 				c, _ := callOf(unwrap(x))
 				if c == nil {
 					continue
 				}
 				cf := calleeFunc(c.Common())
-				if cf == nil || cf.Pkg() == nil || !(cf.Pkg().Path() == modPath || strings.HasPrefix(cf.Pkg().Path(), modPath+"/")) {
+				sf := c.Call.StaticCallee()
+				if !calleeOK(cf, sf) {
 					continue
 				}
-				// a failed READ of the DAG: a Store method or a method of *Hashgraph
-				recv := recvNamed(cf)
-				if recv != "Store" && recv != "Hashgraph" && recv != "BadgerStore" && !(recv == "" && cf.Pkg().Path() == modPath+"/"+HG) {
-					continue
+				cname := "closure"
+				if cf != nil {
+					cname = shortName(cf)
+				} else if sf != nil {
+					cname = sf.Name()
 				}
 				if nres := f.Signature.Results().Len(); nres == 0 || !isErrorType(f.Signature.Results().At(nres-1).Type()) {
 					continue // cannot report an error at all (sort comparators …): out of this rule's reach
 				}
-				if why := absentIsAnAnswer(f, cf, c); why != "" {
-					nEx++
-					exempt = append(exempt, f.Name()+"/"+cf.Name())
-					continue
+				if cf != nil {
+					if why := absentIsAnAnswer(f, cf, c); why != "" {
+						nEx++
+						exempt = append(exempt, f.Name()+"/"+cf.Name())
+						continue
+					}
 				}
 				// the function asks which error it is (anywhere): accepted idiom, its handling is the function's business
 				classified := false
@@ -453,13 +479,12 @@ func consensusErrRule(p *Prog, r *Report, rule string) {
 						bad = p.ipos(ret)
 					}
 				}
-				r.Check(bad == "", rule, f.Name()+":err-of-"+cf.Name()+"@"+p.ipos(c), p.ipos(c), fnName(f), "failing edge leads to error returns only",
-					"the error of "+shortName(cf)+" is tested, but from the failing edge a path reaches "+bad+" without returning an error and without asking which error it is: a transient store failure (evicted entry, I/O error) becomes a consensus answer that differs from what other nodes compute from the same DAG")
+				r.Check(bad == "", rule, f.Name()+":err-of-"+cname[strings.LastIndex(cname, ".")+1:]+"@"+p.ipos(c), p.ipos(c), fnName(f), "failing edge leads to error returns only",
+					"the error of "+cname+" is tested, but from the failing edge a path reaches "+bad+" without returning an error and without asking which error it is: "+what)
 			}
 		}
 	}
-	sort.Strings(exempt)
-	r.Note("%s: %d tested errors of store / hashgraph calls in %d consensus / pass functions of package hashgraph; %d tests of errors the function classifies (IsStore / errors.Is …); %d sites where 'absent' is an answer by design (table absentIsAnAnswer): %s", rule, n, len(fs), nCls, nEx, strings.Join(exempt, ", "))
+	return
 }
 
 // absentIsAnAnswer: the sites, confirmed by reading, where the code deliberately treats "the store does not have it" as
@@ -1066,4 +1091,128 @@ func lazyGetterRule(p *Prog, r *Report, rule string) {
 		}
 		r.Check(ok, rule, s.typ+"."+s.getter+":fills-"+s.field+"-when-empty", p.pos(fn.Pos()), fnName(fn), "memo filled exactly when empty", why)
 	}
+}
+
+/* ---------- core.* functions propagate the errors they test (mutation scan of src/node/core.go) ---------- */
+
+// coreErrRule: the functions of node.core that the acceptance / commit / insertion rules reason about report failure
+// through their error result; the rules of C12 (nothing adopted unless the checks passed, application restored only after
+// core.fastForward returned nil), C02 (block re-stored after the application answered), C05 / C11 (pools trimmed, head moved
+// only after a successful insertion) and C08 (shape validation) all read "returned nil" as "succeeded". That reading is
+// sound only if these functions do not swallow the errors they test: `if err != nil { return nil }` in core.fastForward makes
+// a refused response look adopted to Node.fastForward, which then restores the application from the unverified snapshot.
+func coreErrRule(p *Prog, r *Report, rule string, names []string, min int) {
+	r.Rule(rule, min, "the core functions whose nil result the other rules read as success return an error on every failing edge of the module calls they test")
+	var fs []*ssa.Function
+	for _, n := range names {
+		f := p.Func(NODE, "core", n)
+		if f == nil {
+			f = p.Func(NODE, "", n)
+		}
+		if f == nil {
+			r.Anchor(rule, "node."+n)
+			continue
+		}
+		fs = append(fs, withAnon(f)...)
+	}
+	n, _, nCls, _ := errPropFuncs(p, r, rule, fs, func(cf *types.Func, sf *ssa.Function) bool {
+		if cf != nil && cf.Pkg() != nil && (cf.Pkg().Path() == modPath || strings.HasPrefix(cf.Pkg().Path(), modPath+"/")) {
+			return true
+		}
+		return cf == nil && sf != nil && inModule(sf) // a local closure (checkPeers, checkEvents)
+	}, "the caller takes the nil result for success")
+	r.Note("%s: %d tested errors of module calls / local closures in %d functions (%d classified by the function)", rule, n, len(fs), nCls)
+}
+
+/* ---------- C10.follows: core.validators follows every recorded set (mutation scan) ---------- */
+
+// validatorsFollowRule: in processAcceptedInternalTransactions, once Store.SetPeerSet(round, v) succeeded, every path to a
+// success return stores that same v into core.validators (C10.latest checks that nothing ELSE is stored there; this is the
+// converse: the field is not left behind, or the next accepted change is applied to a stale base and the sets diverge from
+// the nodes that replay the same blocks).
+func validatorsFollowRule(p *Prog, r *Report, rule string) {
+	r.Rule(rule, 1, "after a successful SetPeerSet the recorded set is stored into core.validators on every path to a success return")
+	fn := p.Func(NODE, "core", "processAcceptedInternalTransactions")
+	fv := p.Field(NODE, "core", "validators")
+	if fn == nil || fv == nil {
+		r.Anchor(rule, "node.(*core).processAcceptedInternalTransactions / core.validators")
+		return
+	}
+	n := 0
+	for _, c := range callsIn(fn, storeM("SetPeerSet")) {
+		n++
+		v := lastArg(c)
+		var sts []ssa.Instruction
+		for _, st := range storesIntoField(fn, fv) {
+			if unwrap(st.Val) == unwrap(v) || sameOrigin(st.Val, v) || flowsFrom(st.Val, func(x ssa.Value) bool { return x == v || unwrap(x) == unwrap(v) }) {
+				sts = append(sts, st)
+			}
+		}
+		ok, why := len(sts) > 0, ""
+		if len(sts) == 0 {
+			why = "the set passed to SetPeerSet is never stored into core.validators"
+		}
+		cv, _ := c.(ssa.Value)
+		for _, rp := range p.succRets(fn, errNil, 0) {
+			if !canFollow(c, rp.ret) {
+				continue
+			}
+			// success returns reached after the call (the call's own failure leads to error returns)
+			dom := false
+			for _, st := range sts {
+				if dominates(st, rp.ret) {
+					dom = true
+				}
+			}
+			if dom {
+				continue
+			}
+			// paths that bypass the SetPeerSet call (nothing changed) are fine: require only that no path from the
+			// call's success edge reaches the return without the store
+			reached := false
+			if cv != nil {
+				stBlocks := map[*ssa.BasicBlock]bool{}
+				for _, st := range sts {
+					stBlocks[st.Block()] = true
+				}
+				forwardFrom(c.Block(), func(x *ssa.BasicBlock) bool {
+					if stBlocks[x] {
+						return false
+					}
+					if x == rp.ret.Block() {
+						reached = true
+						return false
+					}
+					return true
+				})
+				// the store may sit in the call's own block, after the call
+				for _, st := range sts {
+					if st.Block() == c.Block() {
+						reached = false
+					}
+				}
+			}
+			if reached && !errorExitFromCall(c, rp.ret) {
+				ok, why = false, "a success return ("+p.ipos(rp.ret)+") is reachable after SetPeerSet succeeded without core.validators having been set to the recorded set"
+			}
+		}
+		r.Check(ok, rule, "processAcceptedInternalTransactions:validators-follow-the-recorded-set", p.ipos(c), fnName(fn), "core.validators = the set just recorded", why)
+	}
+	if n == 0 {
+		r.Fail(rule, "processAcceptedInternalTransactions:SetPeerSet", p.pos(fn.Pos()), fnName(fn), "no Store.SetPeerSet call")
+	}
+}
+
+// errorExitFromCall: the return is an error return (never a success): used to discount the failure branch of the call.
+func errorExitFromCall(c ssa.CallInstruction, ret *ssa.Return) bool {
+	n := len(ret.Results)
+	if n == 0 || !isErrorType(ret.Results[n-1].Type()) {
+		return false
+	}
+	for _, rp := range retPointsOf(ret, n-1) {
+		if !neverNilErr(rp.val, 3) {
+			return false
+		}
+	}
+	return true
 }
